@@ -84,9 +84,17 @@ def run_property(pid, tier, seed, repo=None, write=True):
     ctx = Ctx(tier, repo)
     res = core.Result()
     meta = props.PROPS[pid]
-    for fn in meta["clauses"]:
+    runs = [(fn, None) for fn in meta["clauses"]]
+    if tier == "thorough":
+        for fn in meta["clauses"]:
+            if fn in props.PORTABLE:
+                runs += [(fn, "default"), (fn, "nostd")]
+    for fn, cfg in runs:
         try:
-            fn(ctx, res)
+            if cfg is None:
+                fn(ctx, res)
+            else:
+                fn(ctx, res, config=cfg)
         except core.ExtractError as e:
             # the tree does not build in a configuration the rule needs: the property cannot be shown
             tail = "\n".join(e.output.strip().splitlines()[-25:])
